@@ -377,6 +377,7 @@ constexpr long double make_ld(ld_rep r)
 constexpr size_t NLD = len(T_LD);
 struct LdCT {
     long double floor_[NLD]{}, ceil_[NLD]{}, trunc_[NLD]{}, round_[NLD]{}, rint_[NLD]{};
+    long lrint_[NLD]{};
     long long llrint_[NLD]{};
     bool signbit_[NLD]{}, isnan_[NLD]{}, isinf_[NLD]{}, dom_[NLD]{}, rdom_[NLD]{};
 };
@@ -402,6 +403,7 @@ constexpr auto compute_ld()
         r.round_[i]         = r.rdom_[i] ? etl::round(x) : 0.0L;
         r.rint_[i]          = etl::rint(x);
         r.dom_[i]           = ld_lrint_dom(x);
+        r.lrint_[i]         = r.dom_[i] ? etl::lrint(x) : 0;
         r.llrint_[i]        = r.dom_[i] ? etl::llrint(x) : 0;
         r.signbit_[i]       = etl::signbit(x);
         r.isnan_[i]         = etl::isnan(x);
@@ -964,7 +966,8 @@ bool vh::run_case(std::string const& op, Toks& in, Out& impl, Out& ref)
                 put_ld(ref.tok("ok"), etl::rint(x), false);
             } else if (op == "llrint" || op == "lrint") {
                 if (!CT_LD.dom_[i]) { return false; }
-                impl.tok("ok").num(CT_LD.llrint_[i]);
+                // (lrint and llrint are separate overload sets: each is constant-evaluated on its own)
+                impl.tok("ok").num(op == "lrint" ? static_cast<long long>(CT_LD.lrint_[i]) : CT_LD.llrint_[i]);
                 ref.tok("ok").num(op == "lrint" ? etl::lrint(x) : etl::llrint(x));
             } else if (op == "signbit") {
                 impl.tok("ok").b(CT_LD.signbit_[i]);
